@@ -153,7 +153,7 @@ func WithCancel(parent context.Context) (context.Context, context.CancelFunc) {
 }
 
 // WithTimeout is context.WithTimeout in virtual time. The returned context
-// reports context.DeadlineExceeded as its cause; Err() is context.Canceled
+// reports context.DeadlineExceeded as its cause and as its Err() when its own timer ended it (Canceled otherwise)
 // (the standard library offers no way to construct a context whose Err is
 // DeadlineExceeded without a real timer).
 func WithTimeout(parent context.Context, d time.Duration) (context.Context, context.CancelFunc) {
@@ -163,8 +163,14 @@ func WithTimeout(parent context.Context, d time.Duration) (context.Context, cont
 	if pd, ok := parent.Deadline(); ok && pd.Before(dl) {
 		dl = pd
 	}
-	var ctx context.Context = &deadlineCtx{Context: inner, deadline: dl}
-	t := s.addTimer(d, fmt.Sprintf("ctx-timeout(%v)", d), func() { cancel(context.DeadlineExceeded) })
+	dc := &deadlineCtx{Context: inner, deadline: dl}
+	var ctx context.Context = dc
+	t := s.addTimer(d, fmt.Sprintf("ctx-timeout(%v)", d), func() {
+		if inner.Err() == nil {
+			dc.timedOut = true // ended by its own timer: Err() is DeadlineExceeded, as with the standard library
+		}
+		cancel(context.DeadlineExceeded)
+	})
 	return ctx, func() {
 		if s.killing {
 			cancel(context.Canceled)
@@ -182,6 +188,18 @@ func WithTimeout(parent context.Context, d time.Duration) (context.Context, cont
 type deadlineCtx struct {
 	context.Context
 	deadline time.Time
+	timedOut bool
+}
+
+// Err is context.DeadlineExceeded when the context's own timer ended it (the embedded cancel context says Canceled).
+func (c *deadlineCtx) Err() error {
+	if e := c.Context.Err(); e != nil {
+		if c.timedOut {
+			return context.DeadlineExceeded
+		}
+		return e
+	}
+	return nil
 }
 
 func (c *deadlineCtx) Deadline() (time.Time, bool) { return c.deadline, true }
